@@ -32,9 +32,9 @@
 (* runs (plain / quoted / space / anchor-name runs) <= MaxRun.             *)
 (*                                                                         *)
 (* Linearity for ALL those inputs is the conjunction of                    *)
-(*   StepCost : every action costs at most CMax  (which holds because of   *)
-(*              the structural invariants QueueBound, KeysBound,           *)
-(*              BufferBound), and                                          *)
+(*   StepCost : every action costs at most CStep[x] per mechanism x, CMax  *)
+(*              in total (which holds because of the structural invariants *)
+(*              QueueBound, KeysBound, BufferBound), and                   *)
 (*   Progress : the number of actions is at most SPC per consumed          *)
 (*              character + FuelCap  (variable fuel: SPC units are         *)
 (*              deposited per character forwarded, every action spends 1,  *)
@@ -46,7 +46,9 @@
 (*                                                                         *)
 (* Scaled constants: Block = 4 (4096 in reader.py), MaxKey = 4 (1024 in    *)
 (* scanner.py).  Variant # "code" are deliberately superlinear designs     *)
-(* used as negative controls (MC_Work_negctl*.cfg MUST fail).              *)
+(* used as negative controls (MC_Work_negctl.cfg: structural invariants,  *)
+(* MC_Work_cost.cfg: cost invariants only; with Variant # "code" they MUST *)
+(* fail - harness/props/c20.py runs them in every check as vacuity guard). *)
 (*                                                                         *)
 (* Alphabet (one symbol per class the cost depends on):                    *)
 (*   w word character      s space            n line break                 *)
@@ -67,7 +69,7 @@ CONSTANTS Block,     \* characters per stream read (reader.py: 4096)
           Stream,    \* BOOLEAN: the input is a stream read Block characters at a time; FALSE: a str (reader.py:72-75,
                      \* raw_buffer is None, the whole text is the buffer, update() returns at once)
           Exact,     \* BOOLEAN: carry work / consumed (bounded by MaxLen); FALSE: finite abstraction, any length
-          Variant,   \* "code" | "nokeylimit" | "nobuftrim" | "concat" | "anchorlist" | "rescanqueue"
+          Variant,   \* "code" | "nokeylimit" | "nobuftrim" | "concat" | "anchorlist"
           Sym        \* alphabet the environment chooses from (without "0")
 
 Mech == {"call", "reader", "keys", "queue", "build", "parse"}
@@ -80,7 +82,13 @@ QMax    == MaxKey + MaxCol + 6                \* len(tokens)
 KMax    == IF MaxFlow + 1 < MaxKey + 2 THEN MaxFlow + 1 ELSE MaxKey + 2    \* len(possible_simple_keys)
 BufMax  == 2 * Block + MaxRun + 3             \* len(buffer): determine_encoding has one block in raw_buffer already
                                               \* when the first update() reads another
-CMax    == 4 * BufMax + 2 * Block + 3 * (1 + 3 * KMax) + 3 * QMax + 4 * MaxRun + 24   \* cost of one action
+CStep == [x \in Mech |-> CASE x = "call"   -> 30 + 4 * MaxCol         \* cost of ONE action, per mechanism
+                           [] x = "reader" -> 4 * BufMax + 2 * Block + 4 * MaxRun
+                           [] x = "keys"   -> 9 * KMax + 2
+                           [] x = "queue"  -> 2 * QMax + MaxCol + 4
+                           [] x = "build"  -> 2 * (MaxRun + 2)
+                           [] x = "parse"  -> KParse + 1]
+CMax    == CStep["call"] + CStep["reader"] + CStep["keys"] + CStep["queue"] + CStep["build"] + CStep["parse"]
 SPC     == 8                                  \* actions per consumed character
 FuelCap == 8 * (QMax + MaxCol + 4)            \* pending obligations: queued tokens, open block collections
 ALin == [x \in Mech |-> CASE x = "call"   -> 30
@@ -98,7 +106,7 @@ BLin == [x \in Mech |-> CASE x = "call"   -> 60 + 10 * MaxCol
 
 VARIABLES m,         \* reader + scanner configuration; inside an action also c = its cost so far, fw = characters
                      \* it forwarded; m.la = characters already chosen by the environment and not yet forwarded
-                     \* (the known part of buffer[pointer:]); m.ok = the last action cost at most CMax
+                     \* (the known part of buffer[pointer:]); m.ok = the last action cost at most CStep[x] for every mechanism x
           fuel,      \* Progress account
           work,      \* Exact: accumulated cost per mechanism
           consumed   \* Exact: reader index
@@ -171,7 +179,7 @@ IsStale(k) == k.on /\ (~k.same \/ (Variant # "nokeylimit" /\ k.dist > MaxKey))
 
 StaleKeys(r) ==                                \* stale_possible_simple_keys
   LET n  == Cardinality(KeysOn(r))
-      r1 == Charge(Call(r), "keys", 2 * n + (IF Variant = "rescanqueue" THEN r.qlen ELSE 0))
+      r1 == Charge(Call(r), "keys", 2 * n)
   IN  IF \E lv \in KeysOn(r) : IsStale(r.keys[lv]) /\ r.keys[lv].req THEN Err(r1)
       ELSE [r1 EXCEPT !.keys = [lv \in Levels |-> IF IsStale(@[lv]) THEN NoKey ELSE @[lv]]]
 
@@ -440,7 +448,7 @@ Choose ==                                      \* the environment fixes one more
   /\ UNCHANGED <<fuel, work, consumed>>
 
 Commit(r) ==
-  /\ m' = [r EXCEPT !.c = Z, !.fw = 0, !.ok = Total(r.c) <= CMax]
+  /\ m' = [r EXCEPT !.c = Z, !.fw = 0, !.ok = \A x \in Mech : r.c[x] <= CStep[x]]
   /\ fuel' = Min2(FuelCap, fuel + SPC * r.fw) - 1
   /\ IF Exact THEN /\ work' = [x \in Mech |-> work[x] + r.c[x]]
                    /\ consumed' = consumed + r.fw
